@@ -938,6 +938,10 @@ func (c *specCtx) call(n *SCall) (Val, types.Type) {
 		return scalar(tb.Int(c.e.typeTag(c.resolveType(s.V)))), untypedInt
 	case "fresh":
 		v, t := arg(0)
+		if px, ok := v.ann("").(*PtrX); ok && px.Kind == PLocal {
+			// a pointer to an object that still lives in a local cell: give it its heap identity first
+			v = c.e.plainPtr(c.st, v)
+		}
 		r := v.T[0]
 		_ = t
 		return scalar(tb.And(tb.Ge(r, c.oldAlloc), tb.Lt(r, c.st.Alloc))), boolType
@@ -1084,6 +1088,30 @@ func (c *specCtx) call(n *SCall) (Val, types.Type) {
 			c.fail("marshalLen needs an interface value")
 		}
 		return scalar(tb.App("marshallen", SInt, v.T[0], v.T[1])), untypedInt
+	case "bytesId":
+		// bytesId(b): the identity of the byte slice's content (equals marshalOf(x) iff b holds what x's marshaler produced;
+		// it is what unmarshalledFrom(y) records)
+		v, T := arg(0)
+		if sl, ok := T.Underlying().(*types.Slice); ok {
+			v = c.e.materialiseIfSlice(c.st, v, sl)
+		}
+		if len(v.T) != 4 {
+			c.fail("bytesId needs a byte slice")
+		}
+		row := tb.Select(c.H("E:uint8", SArr2I), v.T[0])
+		return scalar(tb.App("bytestok", SInt, row, v.T[1], v.T[2])), untypedInt
+	case "idBytes":
+		// idBytes(b): the 32-byte array value whose elements are the bytes of b (what copying b into a [32]byte yields)
+		v, T := arg(0)
+		if sl, ok := T.Underlying().(*types.Slice); ok {
+			v = c.e.materialiseIfSlice(c.st, v, sl)
+		}
+		if len(v.T) != 4 {
+			c.fail("idBytes needs a byte slice")
+		}
+		at := types.NewArray(types.Typ[types.Uint8], 32)
+		row := tb.Select(c.H("E:uint8", SArr2I), v.T[0])
+		return scalar(tb.App("pack_"+typeKey(at), SInt, row, v.T[1], tb.Int(32))), at
 	case "bigOf":
 		// bigOf(b): the non-negative integer whose big-endian bytes are the byte slice b (what SetBytes(b) yields)
 		v, T := arg(0)
